@@ -87,6 +87,7 @@ class Log:
 LOG = None
 WORLD = None
 PREVIOUS_RUNNER = [None]
+KEPT_INSTANCES = []  # service instances of generations that asked for it stay alive for the rest of the process
 REJECTED_RUNNER = [None]  # a runner whose accept was refused and which was then shut down by its owner's cleanup
 
 
@@ -269,6 +270,8 @@ class World:
         self.returned = {}  # pid -> object returned by the payload
         self.args = {}  # pid -> (args tuple, kwargs dict) as supplied
         self.instances = {}  # sid -> service instance (strong reference)
+        if gen_spec.get("keep_instances"):
+            KEPT_INSTANCES.append(self.instances)
         self.accept_done = threading.Event()
         self.overlap = {"asyncio": 0, "trio": 0}
         self.helpers = []
@@ -602,6 +605,15 @@ def common_op(world, pspec, op):
                 x += i
             world.overlap[flavour] -= 1
             LOG("crit", pid=pid, gen=world.gen, entered_with=seen, **context_facts())
+    elif kind == "crit_hold":
+        # one long synchronous section: the payload keeps its loop to itself for op[1] seconds (a slow parser, a blocking call)
+        flavour = pspec["flavour"]
+        if flavour in world.overlap:
+            seen = world.overlap[flavour]
+            world.overlap[flavour] = seen + 1
+            time.sleep(op[1])
+            world.overlap[flavour] -= 1
+            LOG("crit", pid=pid, gen=world.gen, entered_with=seen, held=op[1], **context_facts())
     elif kind == "crit_adopt":
         flavour = pspec["flavour"]
         if flavour in world.overlap:
